@@ -6,9 +6,7 @@ from .readerlib import both_modes, dump_dict
 ID = 'C17'
 TARGETS = ['theories/Properties/C17.vo']
 THEOREMS = core.theorems_of(ID)
-LEVEL = ('reader/writer models (Model/Reader.v, Model/Writer.v) tied to the code by differential runs of read->write->read->write on replays with tolerated '
-         'irregularities; oracle on the real library: declared raw length = position of the metadata/closing byte, re-read succeeds and yields the same '
-         'game, re-write is byte-identical; proved (Properties/C17.v): what the writer declares equals what it emits on the model')
+LEVEL = ('proved (Properties/C17.v): for the game of EVERY well-formed replay (end/metadata present or missing) the written file is the canonical stream, its header declares exactly the length of its raw element, it re-reads whole to the same game and re-writing is a fixed point; unknown events are no-ops of the event handler in any state; the remaining tolerated irregularities (junk after Game End, permuted events inside a frame) are decided by the differential run: reader/writer models tied to the code by read->write->read->write on irregular replays; oracle on the real library: declared raw length = position of the metadata/closing byte, re-read yields the same game, re-write is byte-identical')
 
 
 def irregular(rng, n):
